@@ -451,4 +451,8 @@ def run(chk):
     if True:
         from . import corpus
         corpus.capture_rules(chk, "C19")
+    # "numbers keep their typed value ... via each sink": no narrowing / sign-changing cast on the way out (shared with C13)
+    if not getattr(chk, "_overlay", None):
+        from . import c13
+        c13.lossless_casts_rule(chk, P, "C19.R5:lossless-int-casts")
     return chk
